@@ -38,7 +38,7 @@ ENTITIES = ("&lt;", "&gt;", "&amp;", "&#39;", "&#34;", "&quot;", "&LT;", "&GT;",
 
 
 def safe_out(out: str) -> bool:
-    out = out.replace("<br />", "")
+    out = out.replace("<br />", "").replace("<BR />", "")
     # markup authored by the tablerow tag itself
     for n in ("1", "2", "3"):
         out = out.replace('<tr class="row' + n + '">', "").replace('<td class="col' + n + '">', "")
@@ -77,7 +77,8 @@ def _parse(src: str):
         return None
 
 
-SINGLE = {(f, a): _parse("{{ x | " + f + ["", ": y", ": y, y"][a] + " }}|{{ l | " + f + ["", ": y", ": y, y"][a] + " }}") for f in FILTERS for a in (0, 1, 2)}
+_ARGS = ["", ": y", ": y, y", ": 'a'", ": '%Y', 'b'", ": 'a', y"]
+SINGLE = {(f, a): _parse("{{ x | " + f + _ARGS[a] + " }}|{{ l | " + f + _ARGS[a] + " }}") for f in FILTERS for a in range(len(_ARGS))}
 PAIRS = [(f, g) for f in CORE for g in CORE]
 PAIR_T = {
     (f, g): [_parse("{{ x | " + f + " | " + g + " }}"), _parse("{{ x | " + f + ": y | " + g + " }}"), _parse("{{ x | " + f + " | " + g + ": y }}"), _parse("{{ x | " + f + ": y | " + g + ": y }}")]
@@ -116,12 +117,12 @@ def d_filter0(f: str, x: str) -> bool:
     consts_thorough={"N": 2},
     timeout=150,
     timeout_thorough=600,
-    shard={"f": quick_filters(), "a": [1, 2]},
-    shard_thorough={"f": FILTERS, "a": [1, 2]},
-    covers="{{ x | f: y[, y] }} with data-supplied arguments (join separators, append/prepend/replace/default operands, translation contexts ...)",
+    shard={"f": quick_filters(), "a": [1, 2, 3, 5]},
+    shard_thorough={"f": FILTERS, "a": [1, 2, 3, 4, 5]},
+    covers="{{ x | f: y[, y] }} with data-supplied arguments and {{ x | f: 'a'[, y] }} with author literals (Markup under auto-escape) as arguments (join separators, append/prepend/replace/default operands, translation contexts ...)",
     bounds="x over {< & \" a} len <= 1 (thorough 2); y over {< & a '} len <= 1",
     stubs=(STUB_MARKUPSAFE,),
-    grid=lambda: [(f, a, x, y, 9) for f in FILTERS for a in (1, 2) for x in ("<", "a\"") for y in ("<", "'", "&")],
+    grid=lambda: [(f, a, x, y, 9) for f in FILTERS for a in (1, 2, 3, 4, 5) for x in ("<", "a\"") for y in ("<", "'", "&")],
 )
 def d_filter_args(f: str, a: int, x: str, y: str, N: int) -> bool:
     return _ok(SINGLE[(f, a)], x=x, l=[x, y], y=y)
@@ -205,14 +206,15 @@ def d_flows(i: int, x: str, y: str, N: int) -> bool:
 
 
 _HOSTILE = ["<", ">", "&", "'", '"', "<script>", "&lt;", "%3C", "a<b", "\n<", "&amp;lt;", "%(u)s<", "<%s"]
-NATIVE_T = {(f, a): _parse("{{ x | " + f + ["", ": y", ": y, y", ": u: y", ": y, plural: y, count: 2, u: x"][a] + " }}") for f in ALL_FILTERS_NATIVE for a in range(5)}
+_NARGS = ["", ": y", ": y, y", ": u: y", ": y, plural: y, count: 2, u: x", ": '%Y'", ": 'a', 'b'", ": 'a', y", ": '%(u)s', u: x"]
+NATIVE_T = {(f, a): _parse("{{ x | " + f + _NARGS[a] + " }}|{% assign z = x | " + f + _NARGS[a] + " %}{{ z }}|{{ z | upcase }}") for f in ALL_FILTERS_NATIVE for a in range(len(_NARGS))}
 
 
 @cond(
     grid_only=True,
-    covers="every non-babel filter incl. t/gettext/ngettext/pgettext/npgettext/date with 13 hostile strings as value and arguments, plus the translate-tag flow, natively",
+    covers="every non-babel filter incl. t/gettext/ngettext/pgettext/npgettext/date with 13 hostile strings as value and arguments, data and author-literal (Markup) arguments, direct / assigned / re-filtered output, plus the translate-tag flow, natively",
     bounds="concrete grid; not a solver verdict",
-    grid=lambda: [(f, a, i, j) for f in ALL_FILTERS_NATIVE for a in range(5) for i in range(len(_HOSTILE)) for j in (0, 2, 3, 7, 11)],
+    grid=lambda: [(f, a, i, j) for f in ALL_FILTERS_NATIVE for a in range(len(_NARGS)) for i in range(len(_HOSTILE)) for j in (0, 2, 3, 7, 11)],
 )
 def g_translate(f: str, a: int, i: int, j: int) -> bool:
     x, y = _HOSTILE[i], _HOSTILE[j]
